@@ -137,6 +137,14 @@ CLAIMS.update({
    design="3/C07"),
 })
 
+CLAIMS.update({
+ 'C20': dict(
+   text="(1) X4: explicit-state breadth-first search over the real client against a scripted peer in which every handle (SendRequest, SendStream, ResponseFuture, RecvStream + flow control, PingPong) lives on a second OS thread and every operation runs there while the connection is polled on the main thread; a baton makes the interleaving a recorded choice. Besides operations between polls, one operation of a 21-entry menu may run at any transport callback (write / flush / read) inside Connection::poll - exactly where the connection task has released its internal locks around I/O, including the window between staging a chained DATA frame and reclaiming its unwritten remainder (partial writes via a write budget); at most 2 such in-poll operations per execution, two initial states (fresh / mid-exchange), quick depth 3. In every state: no panic, no operation blocked on a library lock (watchdog = deadlock), DATA on the wire is a prefix of what send_data accepted in call order, data read is a prefix of what the peer sent, flow-control accountant and stream life-cycle automaton on the wire, receive windows never over-credited; epilogue from every new state: windows opened wide, every stream finished, then every accepted octet and END_STREAM is on the wire, nothing is left in the send buffer, an outstanding user ping completes. (2) loom, all interleavings without preemption bound, over the real text of src/proto/ping_pong.rs (lock-free user-ping state machine): send_ping vs the connection's poll (lost wakeup), pong vs poll_pong, connection drop vs poll_pong / send_ping, round trip followed by a second ping.",
+   note="Real parallel runs on a multi-threaded runtime (the second half of the quantifier) would be sampling and are not part of the check. Interleavings are explored at lock-release granularity for the mutex-protected state (sound because all shared state of streams is behind the two mutexes) and at atomic-operation granularity for the ping state machine; in the loom build atomic-waker is a linearizable stand-in and plain stores are modelled as AcqRel swaps because loom 0.7 leaves a store that races with a read-modify-write unordered in modification order (false alarm observed, DESIGN.md section 8).",
+   tech="explicit-state BFS over the real implementation with a controlled second thread (baton scheduling at lock-release points); loom exhaustive interleaving exploration of the real ping_pong.rs",
+   design="3/C20"),
+})
+
 NOT_YET = "check not built yet (work in progress; DESIGN.md section 3 describes the planned harness)"
 NA = {}
 
